@@ -57,7 +57,7 @@ func VerifC17_RedialRecvFull() {
 		return nil, verifErrCarrier
 	}
 	c := NewRedialPacketConn(verifAddr{}, verifAddr{}, dial)
-	verifapi.Quiesce() // the dial loop is now waiting at the gate
+	verifapi.Quiesce()                        // the dial loop is now waiting at the gate
 	for len(c.recvQueue) < cap(c.recvQueue) { // fill the queue while the first dial is still pending
 		c.recvQueue <- []byte{0}
 	}
